@@ -24,6 +24,9 @@ func runC03(c *Ctx) {
 	r03_6(c, "R03.6")
 	r03_7(c, "R03.7")
 	r03_8(c, "R03.8")
+	// stale children of a directory the peer replaced by a symlink must not
+	// be deleted through that symlink (shared with C01/C05)
+	r05_4(c, "R03.9")
 }
 
 // mainRecv returns the main-loop RecvMsg call of the receive loop (the one not
@@ -555,6 +558,18 @@ func r03_4(c *Ctx, rule string) {
 	})
 	hit, und = c.SuccessAvoiding(fn, nil, as, nil, func(in ssa.Instruction) bool { return in == ssa.Instruction(look) })
 	c.R.Check(!und && hit == nil, rule, base+"/lookup-not-bypassed", c.pos(look), "for a regular entry with a link name every success path passes the lookup", "a regular entry carrying a link name can succeed without its source being looked up")
+	// ... and is not itself recorded as a possible source before that lookup:
+	// an entry naming itself would otherwise pass
+	isRecord := func(in ssa.Instruction) bool {
+		mu, ok := in.(*ssa.MapUpdate)
+		return ok && isFieldLoad(mu.Map, "fsutil.Hardlinks.seenFiles")
+	}
+	okR, hitR, undR := c.Precedes(fn, nil, as, func(in ssa.Instruction) bool { return in == ssa.Instruction(look) }, isRecord)
+	whereR := c.pos(look)
+	if hitR != nil {
+		whereR = c.pos(hitR.Instr)
+	}
+	c.R.Check(okR && !undR, rule, base+"/not-recorded-before-own-lookup", whereR, "an entry carrying a link name is not recorded as a link source before its own source was looked up", "an entry carrying a link name is recorded in seenFiles before its own link source is looked up: a hard link naming itself (or a later entry) is accepted and the writer links whatever already sits at that path")
 	// inserts
 	n := 0
 	eng.Instrs(fn, func(in ssa.Instruction) {
